@@ -262,6 +262,7 @@ const CT_ABORT: u8 = 6;
 const CT_SHUTDOWN: u8 = 7;
 #[allow(unused)]
 const CT_SHUTDOWN_ACK: u8 = 8;
+const CT_SHUTDOWN_COMPLETE: u8 = 14;
 #[allow(unused)]
 const CT_ERROR: u8 = 9;
 const CT_COOKIE_ECHO: u8 = 10;
@@ -1669,6 +1670,15 @@ impl SctpInner {
                 }
                 CT_SHUTDOWN_ACK => {
                     debug!("SCTP SHUTDOWN ACK received, closing connection");
+                    self.print_stats("REMOTE_SHUTDOWN");
+                    *self.close_reason.lock() = Some("REMOTE_SHUTDOWN".into());
+                    self.set_state(SctpState::Closed);
+                }
+                CT_SHUTDOWN_COMPLETE => {
+                    // Last step of a shutdown the peer started (SHUTDOWN, our
+                    // SHUTDOWN ACK above, SHUTDOWN COMPLETE): the peer has deleted
+                    // its association, so ours is over too.
+                    debug!("SCTP SHUTDOWN COMPLETE received, closing connection");
                     self.print_stats("REMOTE_SHUTDOWN");
                     *self.close_reason.lock() = Some("REMOTE_SHUTDOWN".into());
                     self.set_state(SctpState::Closed);
